@@ -130,6 +130,8 @@ func main() {
 		modeC01()
 	case "c02":
 		modeC02()
+	case "c05":
+		modeC05()
 	default:
 		res.InfraError("unknown mode %s", mode)
 	}
@@ -161,6 +163,12 @@ func replayMode() {
 		env, _ = c02Env(p, &fspec)
 		cfg = c02Cfg()
 	}
+	var c05x c05Extra
+	if rp.Mode == "c05" {
+		json.Unmarshal([]byte(rp.Extra), &c05x)
+		env = c05Env(p, c05x.Flusher, c05x.Fault)
+		cfg = c05Cfg()
+	}
 	x, err := vrt.Replay(cfg, rp.Choices, func() { runTransfer(p, env) })
 	if err != nil {
 		res.InfraError("%v", err)
@@ -176,6 +184,8 @@ func replayMode() {
 		checkC01(p, x, last)
 	case "c02":
 		checkC02(p, &fspec, x, last)
+	case "c05":
+		checkC05(p, x, last, c05x.Flusher, c05x.Fault)
 	}
 }
 
